@@ -158,6 +158,11 @@ RecMenu ==
          { [k |-> "entity", id |-> <<NamePL("ex", X)>>, formals |-> <<>>,
             extras |-> << <<NameBare(<<"attr">>), Ref(NameQN("", AB, Y))>> >>],
            [k |-> "entity", id |-> <<NameBare(X)>>, formals |-> <<>>, extras |-> <<>>],
+           \* values that are false in Python (False, the empty string, 0): copying must keep them
+           [k |-> "agent", id |-> <<NamePL("ex", Y)>>, formals |-> <<>>,
+            extras |-> << <<NameQN("ex", A, <<"flag">>), [t |-> "bool", v |-> "0"]>>,
+                          <<NameQN("ex", A, <<"attr">>), [t |-> "str", v |-> "e"]>>,
+                          <<NameQN("ex", A, <<"n">>), [t |-> "int", v |-> "0"]>> >>],
            [k |-> "generation", id |-> <<>>,
             formals |-> << <<"entity", Ref(NameBare(X))>>, <<"activity", Ref(NamePL("ex", Y))>> >>,
             extras |-> <<>>] }
